@@ -15,7 +15,7 @@
     [valid_block t ((a,b),(c,d))]: 0 <= a < Sy, a <= b <= Sy, same for columns;
     [window_of box R]: the pixel window R of a GeoBox window (offset added, shape of R).
     Pairs are (y, x). *)
-From Coq Require Import ZArith List Bool Lia.
+From Coq Require Import ZArith List Bool Lia Permutation.
 From OG Require Import Base.Result Base.ListSel Model.Roi Model.Tiles Model.Blocks
      Proofs.TilesProofs Proofs.BlocksProofs Proofs.C04Lemmas.
 Import ListNotations.
@@ -285,6 +285,20 @@ Theorem C04_assembler_rejects_misshaped_block :
 Proof. exact verify_shape_mismatch. Qed.
 Print Assumptions C04_assembler_rejects_misshaped_block.
 
+(** the working dtype (np.result_type of all present blocks, float32 without blocks) does
+    not depend on the order in which the blocks were inserted ... *)
+Theorem C04_assembler_dtype_order_independent :
+  forall a b : list dtype, Permutation a b -> ba_dtype a = ba_dtype b.
+Proof. exact ba_dtype_perm. Qed.
+Print Assumptions C04_assembler_dtype_order_independent.
+
+(** ... and, for integer blocks of at most 32 bits, it holds every value of every block:
+    copying a block into the working array changes no pixel *)
+Theorem C04_assembler_dtype_holds_every_block :
+  forall dts d, Forall dt_valid dts -> Forall narrow_int dts -> In d dts -> dt_holds d (ba_dtype dts).
+Proof. exact ba_dtype_holds. Qed.
+Print Assumptions C04_assembler_dtype_holds_every_block.
+
 (** a requested Y/X window (ry, rx) — ints, open or negative slices — is normalised
     against the mosaic shape (C17: the normalised slice selects the same elements) and
     the result has the extra axes unchanged *)
@@ -373,6 +387,14 @@ Example C04_ex_offsets_wrap_beyond_int64 :
   (v <- vt_init [4611686018427387904; 4611686018427387904; 5] [1] ;; vt_base v)
   = Ok (-9223372036854775803, 1).
 Proof. vm_compute. reflexivity. Qed.
+
+(** narrow block first, wide block second: the common type is the wide one; int16, uint16 and
+    float32 give float32 (not the pairwise float64); uint64 with a signed block gives float64,
+    which is why the value theorem asks for integers of at most 32 bits *)
+Example C04_ex_dtype :
+  ba_dtype [DU 8; DU 16] = DU 16 /\ ba_dtype [DI 16; DU 16; DF 32] = DF 32 /\
+  ba_dtype [DU 32; DI 8] = DI 64 /\ ba_dtype [DU 64; DI 8] = DF 64 /\ ba_dtype [] = DF 32.
+Proof. vm_compute. auto. Qed.
 
 (** assembly of a 2x2 layout with one present block, window straddling all four tiles *)
 Example C04_ex_assembly :
